@@ -118,12 +118,14 @@ PLANS['C14'] = Plan(
 SGP = 'src/alignment/segments.py::'
 PLANS['C15'] = Plan(
     'C15', [SGP + '_SegmentPairWithConflict.__trimSegmentsAtOptimalPosition', SGP + '_SegmentPairWithConflict.resolveConflict',
-            SGP + 'AlignmentSegment.getReferenceLabels', SGP + 'AlignmentSegment.getQueryLabels', SEG + 'AlignmentSegment.create'], 'other',
+            SGP + 'AlignmentSegment.getReferenceLabels', SGP + 'AlignmentSegment.getQueryLabels', SGP + 'AlignmentSegment.slice',
+            SEG + 'AlignmentSegment.create'], 'other',
     "Deductive links (proved for all inputs): the equal-index cut __trimSegmentsAtOptimalPosition cuts both conflicting sub-segments at the same label count m, each "
     "cut position lying directly before that segment's OWN m-th label (left keeps its first m labels, right drops its first m; at the edges one whole conflict "
     "zone is removed and the other segment kept unchanged); getReferenceLabels / getQueryLabels return well-formed label tables (one strictly increasing index per "
-    "label inside the sub-segment), which discharges the precondition of the cut in resolveConflict; every trimmed segment is rebuilt by AlignmentSegment.create "
-    "(score = sum of what is left). The subtraction itself, slice() and the numpy merge index are assumed contracts here. BOUNDED (run-time contract monitor on the real AlignmentSegmentConflictResolver.resolveConflicts and on every "
+    "label inside the sub-segment), which discharges the precondition of the cut in resolveConflict; AlignmentSegment.slice returns a contiguous run (identity) of the "
+    "segment's positions rebuilt through create, and its trailing-unpaired trimming never indexes an empty list for the two operand shapes used; every trimmed segment is rebuilt by AlignmentSegment.create "
+    "(score = sum of what is left). The subtraction itself (__sub__) and the numpy merge index are assumed contracts here. BOUNDED (run-time contract monitor on the real AlignmentSegmentConflictResolver.resolveConflicts and on every "
     "checkForConflicts(...).resolveConflict() it performs): every resulting segment is a contiguous sub-run (element identity) of one input segment "
     "with score = sum of what is left; pairs outside the overlap are kept; no two resulting segments share a label or cross. Inputs are produced by the real "
     "engine, scorer and segment factory from generated label data with 2-6 nearby seed peaks, both strands, four maxDistance values. The last clause is "
@@ -177,11 +179,12 @@ PLANS['C04'] = Plan(
     'C04', [SEG + 'AlignmentSegment.create', SF + '_AlignmentSegmentBuilder.getSegments', AE + '__getAlignedPairs', AP + 'getScoredPosition',
             'src/alignment/alignment_position.py::NotAlignedPosition.getScoredPosition',
             'src/alignment/alignment_position_scorer.py::AlignmentPositionScorer.getScoredPositions', AR + 'create',
-            'src/workflow_coordinator_factory.py::WorkflowCoordinatorFactory.create',
+            'src/workflow_coordinator_factory.py::WorkflowCoordinatorFactory.create', 'src/alignment/aligner.py::Aligner.getSegments',
             'src/alignment/segments.py::_SegmentPairWithConflict.__trimSegmentsAtOptimalPosition'], 'other',
     "Deductive links: a candidate's offset is query position - (reference position - seed) and within maxDistance (__getAlignedPairs), a pair scores sp - dp*|offset| and an unpaired label su (getScoredPosition x2, getScoredPositions element-wise), a segment's score is "
     "the sum of its members' scores (AlignmentSegment.create; every trim goes through it), builder segments are contiguous runs of the scored list, a row's "
-    "confidence is the sum of its segment scores (AlignmentResultRow.create), and every command-line value reaches the component that uses it "
+    "confidence is the sum of its segment scores (AlignmentResultRow.create), the per-peak composition Aligner.getSegments uses the window [peak, peak + query "
+    "length] and discharges every callee precondition, and every command-line value reaches the component that uses it "
     "(WorkflowCoordinatorFactory.create, symbolic execution of all constructors). BOUNDED: "
     "Confidence of every returned row and every candidate is recomputed from the raw maps, each segment's peak position and the parameters passed on the "
     "command line (-sp/-dp/-su/-d swept), labels strictly inside a segment's span are all accounted for, none twice; the Confidence column equals it to 2 decimals.",
